@@ -2011,14 +2011,18 @@ class Rule(metaclass=LogicalType):
         options = context.options
 
         for _key, _val in value.items():
-            with context.enter(route=f"{_key}<key>") as key_context:
+            try:
+                key_route = f"{_key}<key>"
+            except Exception:  # noqa: a key that cannot even be rendered still gets a route and an error item
+                key_route = f"<{type(_key).__name__} object><key>"
+            with context.enter(route=key_route) as key_context:
                 try:
                     key = key_context.transformer.apply(
                         _key, key_type, func=key_transformer
                     )
                 except Exception as e:
                     error = exc.ParseError(
-                        item=f"{_key}<key>", value=_key, type=key_type, origin_exc=e
+                        item=key_route, value=_key, type=key_type, origin_exc=e
                     )
                     if options.invalid_keys == options.EXCLUDE:
                         context.collect_waring(error.formatted_message)
@@ -2056,7 +2060,7 @@ class Rule(metaclass=LogicalType):
             except Exception as e:
                 # converted key is not hashable
                 context.handle_error(exc.ParseError(
-                    item=f"{_key}<key>", value=_key, type=key_type, origin_exc=e
+                    item=key_route, value=_key, type=key_type, origin_exc=e
                 ))
         return result
 
